@@ -85,15 +85,21 @@ func bubbleStacks() string {
 	buf := make([]byte, 1<<20)
 	n := runtime.Stack(buf, true)
 	var keep []string
+	mine := ""
 	for i, g := range strings.Split(string(buf[:n]), "\n\n") {
-		if i == 0 { // the caller
-			continue
-		}
 		head := g
 		if k := strings.Index(g, "\n"); k >= 0 {
 			head = g[:k]
 		}
-		if strings.Contains(head, "synctest bubble") {
+		b := ""
+		if k := strings.Index(head, "synctest bubble "); k >= 0 {
+			b = strings.TrimRight(head[k:], "]:")
+		}
+		if i == 0 { // the caller: remember its bubble
+			mine = b
+			continue
+		}
+		if b != "" && b == mine && !strings.Contains(g, "testing.tRunner") {
 			keep = append(keep, g)
 		}
 	}
